@@ -54,6 +54,8 @@ struct Run {
     descr: Vec<String>,
     rotations: u64,
     deletions: u64,
+    /// sequence numbers found in files that are closed (they never change again)
+    closed_cache: BTreeMap<String, Vec<u64>>,
 }
 
 fn prefix_files(dir: &Path) -> Vec<String> {
@@ -90,6 +92,7 @@ impl Run {
 
     /// Sends one event and waits until the writer thread has dealt with it.
     fn send(&mut self, seq: u64, size: usize) -> Result<(), Outcome> {
+        sim_core::heartbeat();
         set_clock(self.now_ns);
         let pad = "x".repeat(size);
         let ev = LogEvent::new(Level::Info, vec![tag("seq", seq), tag("pad", pad)]);
@@ -150,6 +153,8 @@ impl Run {
         for g in gone {
             self.order.retain(|f| f != &g);
             self.info.remove(&g);
+            // (the name can be reused by a later file created within the same second)
+            self.closed_cache.remove(&g);
             self.deletions += 1;
         }
         if after_event {
@@ -163,6 +168,7 @@ impl Run {
     }
 
     fn check_bounds(&self, after_event: bool) -> Result<(), Outcome> {
+        sim_core::heartbeat();
         let mut total = 0u64;
         for f in &self.order {
             let len = std::fs::metadata(self.dir.join(f)).map(|m| m.len()).unwrap_or(0);
@@ -223,12 +229,23 @@ impl Run {
 
     /// Lines of the surviving files, in creation order, form a contiguous most-recent
     /// suffix of the accepted events.
-    fn check_content(&self) -> Result<(), Outcome> {
+    fn check_content(&mut self) -> Result<(), Outcome> {
         let mut seqs: Vec<u64> = Vec::new();
-        for f in &self.order {
+        self.closed_cache.retain(|k, _| self.info.contains_key(k));
+        let newest = self.order.last().cloned();
+        for f in &self.order.clone() {
             if self.info[f].preexisting {
                 continue;
             }
+            // a closed file was parsed when it was the newest one and cannot change any more
+            // (except by a torn-tail truncation, which clears the cache)
+            if Some(f) != newest.as_ref() {
+                if let Some(c) = self.closed_cache.get(f) {
+                    seqs.extend_from_slice(c);
+                    continue;
+                }
+            }
+            let first_new = seqs.len();
             let data = match std::fs::read(self.dir.join(f)) {
                 Ok(d) => d,
                 Err(_) => continue,
@@ -254,6 +271,9 @@ impl Run {
                     }
                 }
                 // (whole lines without a sequence tag are the writer's own, e.g. its start marker)
+            }
+            if Some(f) != newest.as_ref() {
+                self.closed_cache.insert(f.clone(), seqs[first_new..].to_vec());
             }
         }
         // strictly consecutive (apart from torn lines), ending at the last accepted event
@@ -343,6 +363,7 @@ fn history(cfg: &RunCfg) -> Outcome {
         descr: vec![format!("max_write_bytes={max_write_bytes} max_keep_bytes={max_keep_bytes} max_write_age={max_write_age:?} keep_age={keep_age:?}")],
         rotations: 0,
         deletions: 0,
+        closed_cache: BTreeMap::new(),
     };
     // files of earlier runs, oldest first, and unrelated look-alikes
     let npre = gen::below(6);
@@ -385,7 +406,7 @@ fn history(cfg: &RunCfg) -> Outcome {
     }
     let nevents = match cfg.tier {
         Tier::Quick => 30 + gen::below(400),
-        Tier::Thorough => 100 + gen::below(if gen::ratio(1, 20) { 20_000 } else { 2500 }),
+        Tier::Thorough => 100 + gen::below(if gen::ratio(1, 40) { 20_000 } else { 2500 }),
     };
     let big_share = gen::pick(&[2u32, 8, 30]);
     let start_ns = run.now_ns;
@@ -419,6 +440,7 @@ fn history(cfg: &RunCfg) -> Outcome {
                             let f = std::fs::OpenOptions::new().write(true).open(&p).unwrap();
                             f.set_len(len - 1 - u64::from(gen::below(30))).unwrap();
                             run.torn.push(last);
+                            run.closed_cache.clear();
                         }
                     }
                 }
@@ -568,7 +590,7 @@ pub fn spec() -> PropertySpec {
         level: "exploration",
         rule: "The real LogFileWriter writer thread and real files in a per-run tmpfs directory, built with --cfg servlin_verif so that the thread reads a simulated clock and reports each finished event; the harness drives it in lock-step (set clock, send one event with a unique sequence number, wait for the thread). Histories of 30-430 events (quick) / 100-20000 (thorough), 50 B - 60 KiB each, over configurations max_write_bytes in {64 KiB, 128 KiB, 1 MiB} x max_keep_bytes in {1, 2, 3.5, 10} x that, keep-age off / 60 s .. 1 day, max_write_age 1 s .. 1 day; clock gaps of milliseconds, seconds, hours, days; 0-5 pre-existing files of earlier runs with set sizes and mtimes; unrelated look-alike files; restarts at random points: graceful, kill (thread abandoned), kill with a torn tail (newest file cut inside its last line). After EVERY event: creation order by diffing listings, oldest-first deletion, per-file size and age bounds, total size of all prefix files <= keep-size + one event, keep-age, unrelated files untouched; at every rotation and every 64 events: all surviving lines are whole, strictly consecutive and end at the newest accepted event. File-set stage: PrefixFileSet {new, push, delete_oldest, delete_older_than, delete_oldest_while_over_max_len} sequences with synthetic clocks against a reference model of the directory. non-trivial = at least one rotation; distinct = hash of history description.",
         scenarios: vec![
-            Scenario { name: "c19.history", property: "C19", func: history, runs_quick: 6_000, runs_thorough: 120_000, doc: "writer thread histories" },
+            Scenario { name: "c19.history", property: "C19", func: history, runs_quick: 6_000, runs_thorough: 60_000, doc: "writer thread histories" },
             Scenario { name: "c19.file_set", property: "C19", func: file_set, runs_quick: 80_000, runs_thorough: 1_500_000, doc: "file-set API vs model" },
         ],
         required_probes: vec!["probe.rotations", "probe.files_deleted", "probe.preexisting_files", "fault.graceful_restart", "fault.kill_restart", "fault.kill_restart_torn_tail"],
